@@ -41,6 +41,10 @@ pub struct PeerCfg {
     pub keep_alive_ms: Option<u64>,
     /// user timeout (`set_timeout`): the socket aborts when the peer stays silent that long
     pub timeout_ms: Option<u64>,
+    /// a peer that acknowledges sparingly (mostly partial ACKs and "everything but the last octet /
+    /// the FIN"), closes its window often, and talks to a socket without keep-alive or user timeout:
+    /// the socket's data and FIN stay in flight for long, its retransmission timers carry the run
+    pub stingy: bool,
 }
 
 pub fn random_cfg(rng: &mut Rng, focus: u8) -> PeerCfg {
@@ -63,6 +67,7 @@ pub fn random_cfg(rng: &mut Rng, focus: u8) -> PeerCfg {
         2 => 0,
         _ => rng.u32(),
     };
+    let stingy = focus == 2 && rng.chance(1, 3);
     PeerCfg {
         v6,
         mtu,
@@ -77,7 +82,8 @@ pub fn random_cfg(rng: &mut Rng, focus: u8) -> PeerCfg {
         fin_at: match rng.below(5) {
             0 => 0,
             1 => rng.range(1, 20),
-            _ => rng.range(20, (rx_buf as u64 * 6).clamp(200, 20_000)),
+            // (with a receive buffer above 64 KiB the stream may be longer than the largest unscaled window)
+            _ => rng.range(20, (rx_buf as u64 * 6).clamp(200, if rx_buf > 65535 { 150_000 } else { 20_000 })),
         },
         sock_total: if focus == 2 { rng.range(100, 30_000) } else { *rng.pick(&[0u64, 0, 5, 300, 5000]) },
         nagle: rng.bool(),
@@ -86,8 +92,9 @@ pub fn random_cfg(rng: &mut Rng, focus: u8) -> PeerCfg {
         seed: rng.next_u64(),
         steps: rng.urange(20, 400),
         focus,
-        keep_alive_ms: *rng.pick(&[None, None, None, Some(500u64), Some(5_000), Some(75_000)]),
-        timeout_ms: *rng.pick(&[None, None, None, None, None, Some(500u64), Some(3_000), Some(30_000)]),
+        keep_alive_ms: if stingy { None } else { *rng.pick(&[None, None, None, Some(500u64), Some(5_000), Some(75_000)]) },
+        timeout_ms: if stingy { None } else { *rng.pick(&[None, None, None, None, None, Some(500u64), Some(3_000), Some(30_000)]) },
+        stingy,
     }
 }
 
@@ -114,6 +121,10 @@ pub struct PeerStats {
     pub syns_with_data: u64,
     pub coop_epilogues: u64,
     pub coop_completed: u64,
+    /// C02 in its safety form: instants at which the socket had sequence space on the wire that the
+    /// peer never acknowledged (so it owes a retransmission) and its poll_at answer was examined
+    pub owed_retransmission_checks: u64,
+    pub sack_blocks_checked: u64,
 }
 
 pub struct PeerSim {
@@ -449,6 +460,26 @@ impl PeerSim {
                         ),
                     );
                 }
+                // ---- C04: a SACK block reports octets the socket keeps; it may only keep what reached
+                // it inside a window it had advertised
+                for &(l, r) in &seg.sack {
+                    let (lo, hi) = (self.peer_off(l), self.peer_off(r));
+                    if lo < a || hi <= lo || hi as u64 > self.cfg.fin_at {
+                        continue;
+                    }
+                    self.stats.sack_blocks_checked += 1;
+                    if !self.ranges.iter().any(|&(s, e)| s as i64 <= lo && hi <= e as i64) {
+                        let ranges = self.ranges.clone();
+                        self.violate(
+                            "C04",
+                            "sack:reports-bytes-not-received-in-window".into(),
+                            format!(
+                                "the socket's SACK block [{},{}) (stream offsets) reports octets it keeps for reassembly, but only {:?} reached it inside a window it had advertised (highest right edge ever advertised: {})",
+                                lo, hi, ranges, self.edge_max_off
+                            ),
+                        );
+                    }
+                }
                 let shift = if seg.is(itcp::SYN) { 0 } else { self.shift_for_sock_windows() };
                 let edge = a + ((seg.wnd as i64) << shift);
                 self.edge_max_off = self.edge_max_off.max(edge);
@@ -542,6 +573,12 @@ impl PeerSim {
                 }
                 seg.flags = itcp::SYN | if ack.is_some() { itcp::ACK } else { 0 };
                 seg.ack = ack.unwrap_or(0);
+                if let (Some(a), Some(iss)) = (ack, self.iss) {
+                    let hi = iss.wrapping_add(1).wrapping_add(self.written as u32).wrapping_add(1);
+                    if itcp::seq_le(iss.wrapping_add(1), a) && itcp::seq_le(a, hi) && self.peer_ack_sent_max.map_or(true, |m| itcp::seq_lt(m, a)) {
+                        self.peer_ack_sent_max = Some(a);
+                    }
+                }
                 seg.wnd = 65535;
                 seg.mss = self.cfg.peer_mss;
                 seg.wscale = self.cfg.peer_ws;
@@ -853,12 +890,45 @@ impl PeerSim {
             self.egress();
             after = self.state();
         }
+        self.judge_owed_retransmission();
         if after == State::TimeWait && self.now >= self.tw_last_touch + 10_000_000 + 1 {
             let (t, n) = (self.tw_last_touch, self.now);
             self.violate(
                 "C17",
                 "timewait:did-not-expire".into(),
                 format!("socket still in TIME-WAIT at {}us although nothing arrived since {}us (10 s expired) and an egress pass ran", n, t),
+            );
+        }
+    }
+
+    /// C02, safety form, against a peer that shrinks and reopens its window and acknowledges what
+    /// it likes: as long as the socket has put sequence space on the wire (SYN, data, FIN) that no
+    /// ACK number the peer ever sent covers, it owes a retransmission, so after an egress pass the
+    /// interface must name a deadline.  (`peer_ack_sent_max` counts every ACK number the peer sent,
+    /// whether or not the socket accepted the segment: the check claims an obligation only where
+    /// there certainly is one.)
+    fn judge_owed_retransmission(&mut self) {
+        let Some(iss) = self.iss else { return };
+        let st = self.state();
+        if matches!(st, State::Closed | State::Listen | State::TimeWait) || self.closed_in_syn_received {
+            return;
+        }
+        let acked = self.peer_ack_sent_max.unwrap_or(iss);
+        if !itcp::seq_lt(acked, self.snd_max) {
+            return;
+        }
+        self.stats.owed_retransmission_checks += 1;
+        let now = self.now;
+        if self.host.iface.poll_at(inst(now), &self.host.sockets).is_none() {
+            let owed = itcp::seq_diff(self.snd_max, acked);
+            let fin_only = self.sock_fin_seen && owed == 1;
+            self.violate(
+                "C02",
+                format!("peer:no-deadline-with-unacknowledged-{}:{}", if fin_only { "fin" } else if acked == iss { "syn" } else { "data" }, st),
+                format!(
+                    "the socket (state {}) has put sequence space up to {} on the wire, the highest ACK number the peer ever sent is {} ({} unacknowledged), an egress pass ran at {}us - and Interface::poll_at returns None: an event loop driven by poll_at never retransmits",
+                    st, self.snd_max, acked, owed, now
+                ),
             );
         }
     }
@@ -1044,6 +1114,19 @@ impl PeerSim {
                 // C05 quantifies over losses/duplicates/reorderings of a peer's ACKs and windows,
                 // not over peers that acknowledge data which was never sent
                 let pick = if self.cfg.focus == 2 && (pick == 7 || (pick == 6 && !self.sock_fin_seen)) { 8 } else { pick };
+                let pick = if self.cfg.stingy {
+                    match rng.below(12) {
+                        0 => 0,
+                        1 => 3,
+                        2 | 3 => 4,
+                        4 | 5 | 6 => 5,
+                        7 | 8 | 9 => 100,
+                        10 if self.sock_fin_seen => 6,
+                        _ => 8,
+                    }
+                } else {
+                    pick
+                };
                 match pick {
                     0 => (None, "absent"),
                     1 => (Some(iss), "iss"),
@@ -1053,6 +1136,8 @@ impl PeerSim {
                     5 => (Some(una.wrapping_add(itcp::seq_diff(self.snd_max, una).max(0) as u32 / 2)), "inside"),
                     6 => (Some(fin_ack), "fin+1"),
                     7 => (Some(self.snd_max.wrapping_add(rng.range(2, 5000) as u32)), "beyond"),
+                    // everything but the last octet the socket sent - or everything but its FIN
+                    100 => (Some(self.snd_max.wrapping_sub(1)), "snd.max-1"),
                     _ => (Some(self.snd_max), "snd.nxt"),
                 }
             }
@@ -1060,6 +1145,7 @@ impl PeerSim {
         // ---- window the peer advertises (C05 part ii: growing, shrinking, zero, reopening)
         let wnd: u16 = match rng.below(8) {
             0 => 0,
+            4 | 5 if self.cfg.stingy => 0,
             1 => rng.range(1, 100) as u16,
             2 => rng.range(100, 2000) as u16,
             3 => 65535,
